@@ -52,6 +52,7 @@ pub fn gcd_ext_in_place(
     let ghost _ty: (usize, usize) = (t0_len, t1_len);
     proof {
         assert(final(x)@ + sx =~= final(x)@); assert(final(y)@ + sy =~= final(y)@);
+        lemma_leh_pw0();
         lemma_leh_cd_refl(l0, r0);
         lemma_leh_bez_init(l0, r0);
         assert(leh_zeros_from(t0@, 0)); lemma_leh_val_prefix(t0@, 0); lemma_leh_valn0(t0@);
